@@ -113,7 +113,15 @@ let ok_bytes = function Ok b -> b | _ -> failwith "model could not encode a scri
 
 let replace_nth l i v = List.mapi (fun j x -> if j = i then v else x) l
 
-let encode_sym (in_set : int -> bool) (s : string) : n list =
+let rec encode_sym (in_set : int -> bool) (s : string) : n list =
+  if String.length s > 4 && String.sub s 0 4 = "CUT:" then begin
+    (* the first k bytes (at most all but one) of another message *)
+    let (ks, inner) = split1 ':' (String.sub s 4 (String.length s - 4)) in
+    let b = encode_sym in_set inner in
+    let k = Stdlib.min (int_of_string ks) (Stdlib.max 0 (Stdlib.List.length b - 1)) in
+    Stdlib.List.filteri (fun i _ -> i < k) b end else
+  encode_sym_plain in_set s
+and encode_sym_plain (in_set : int -> bool) (s : string) : n list =
   match String.split_on_char ':' s with
   | ["RDY"; id] -> ok_bytes (serialize_msg (MRdy (n_of_hex id)))
   | ["CR"; sid; alg; cwnd; mss] ->
@@ -124,6 +132,11 @@ let encode_sym (in_set : int -> bool) (s : string) : n list =
     let uid = if u.[0] = 'p' then begin
         let k = int_of_string (String.sub u 1 (String.length u - 1)) in
         if in_set k then n_of_int (k + 1) else n_of_int (0xEE000000 + k) end
+      else if u.[0] = 'q' then begin
+        (* the uid of program k plus j * 65536 (modulo 2^32) *)
+        let (ks, js) = split1 '.' (String.sub u 1 (String.length u - 1)) in
+        let k = int_of_string ks and j = int_of_string js in
+        n_of_int (((if in_set k then k + 1 else 0xEE000000 + k) + j * 65536) land 0xFFFFFFFF) end
       else n_of_hex (String.sub u 1 (String.length u - 1)) in
     let fields = of_hexlist fs in
     let b = ok_bytes (serialize_msg (MMs { m_sid = n_of_hex sid; m_uid = uid; m_nf = n_of_int (List.length fields); m_fields = fields })) in
